@@ -44,7 +44,7 @@ type Prog struct {
 	anonOf   map[*ssa.Function][]*ssa.Function
 }
 
-func loadProg(repo string) (*Prog, error) {
+func loadProg(repo string, goos string) (*Prog, error) {
 	abs, err := filepath.Abs(repo)
 	if err != nil {
 		return nil, err
@@ -57,6 +57,9 @@ func loadProg(repo string) (*Prog, error) {
 		env = append(env, e)
 	}
 	env = append(env, "GOWORK=off", "GOFLAGS=-mod=mod", "GOPROXY=off", "GOSUMDB=off", "GOTOOLCHAIN=local")
+	if goos != "" {
+		env = append(env, "GOOS="+goos, "CGO_ENABLED=0")
+	}
 	cfg := &packages.Config{Mode: packages.LoadSyntax, Dir: abs, Tests: false, Env: env}
 	pkgs, err := packages.Load(cfg, "./...")
 	if err != nil {
